@@ -21,8 +21,8 @@ PROP = {
         "after a restart only conservation is required (the statement promises preserved totals, not identical keys, across a state-file round trip)",
     ],
     "units": [
-        {"pkg": "c15", "test": "TestBatchInvariance", "quick": 2000, "thorough": 30000, "shards": 16},
-        {"pkg": "c15", "test": "TestBatchInvarianceProductionTree", "quick": 200, "thorough": 2500, "shards": 16},
+        {"pkg": "c15", "test": "TestBatchInvariance", "quick": 5000, "thorough": 30000, "shards": 16},
+        {"pkg": "c15", "test": "TestBatchInvarianceProductionTree", "quick": 500, "thorough": 2500, "shards": 16},
         {"pkg": "c15", "test": "TestWitnessF1SilentConvergence", "kind": "plain"},
         {"pkg": "c15", "test": "TestWitnessF2ConstantBesideParameter", "kind": "plain"},
     ],
